@@ -415,6 +415,39 @@ EXPECTED_STEPS = {
 # ------------------------------------------------------------------ entry point
 
 
+def _sets_count(fn: ast.FunctionDef, attr: str, accepted: tuple[str, ...]) -> bool:
+    """does the LAST top-level statement group of `fn` leave `self.<attr>` equal to one of the accepted expressions
+    (evaluated after the arrays were replaced)?  True / False; anything else assigned to it is outside the grammar"""
+    hits = [s for s in fn.body if isinstance(s, ast.Assign) and len(s.targets) == 1 and _is_self_attr(s.targets[0], attr)]
+    nested = [n for n in ast.walk(fn) if isinstance(n, (ast.Assign, ast.AugAssign)) and
+              any(_is_self_attr(t, attr) for t in (n.targets if isinstance(n, ast.Assign) else [n.target]))]
+    if len(nested) != len(hits):
+        raise Unavailable(f"{fn.name}: self.{attr} assigned inside a branch / loop or augmented")
+    if not hits:
+        return False
+    last = hits[-1]
+    if ast.unparse(last.value) not in accepted:
+        raise Unavailable(f"{fn.name}: self.{attr} = {ast.unparse(last.value)[:40]}")
+    # the arrays must not be replaced after the count was taken
+    idx = fn.body.index(last)
+    for later in fn.body[idx + 1:]:
+        if any(isinstance(n, ast.Attribute) and isinstance(n.ctx, ast.Store) and n.attr in ("training", "response")
+               for n in ast.walk(later)):
+            raise Unavailable(f"{fn.name}: array replaced after self.{attr} was set")
+    return True
+
+
+def count_cfg(md: ast.Module) -> dict:
+    rd = find_function(md, "read_data", "ModelData")
+    ap = find_function(md, "append_data", "ModelData")
+    fs = find_function(md, "feature_subset", "ModelData")
+    rows = ("self.training.shape[0]", "len(self.training)", "self.response.shape[0]", "len(self.response)")
+    cols = ("self.training.shape[1]",)
+    return {"readSetsPoints": _sets_count(rd, "n_points", rows), "readSetsDims": _sets_count(rd, "n_dims", cols),
+            "appendSetsPoints": _sets_count(ap, "n_points", rows),
+            "subsetSetsDims": _sets_count(fs, "n_dims", cols + ("len(features)",))}
+
+
 def regenerate() -> dict:
     status: dict = {}
     out = ["-- REGENERATED on every run by harness/translate/model_data.py from",
@@ -440,6 +473,18 @@ def regenerate() -> dict:
     else:
         out.append(f"def dedup : DedupCfg := ⟨{cfg['scan']}, {cfg['cmp']}, {lean_bool(cfg['delT'])}, "
                    f"{lean_bool(cfg['delR'])}, {lean_bool(cfg['upd'])}⟩")
+    counts = None
+    if md is not None:
+        try:
+            counts = count_cfg(md)
+            status["ModelData.counts"] = counts
+        except Unavailable as e:
+            status["ModelData.counts"] = f"unavailable ({e}); correspondence is the only tie"
+    if counts is None:
+        out.append("def counts : CountCfg := CountCfg.std  -- kernel unavailable")
+    else:
+        out.append("def counts : CountCfg := ⟨" + ", ".join(lean_bool(counts[k]) for k in
+                   ("readSetsPoints", "readSetsDims", "appendSetsPoints", "subsetSetsDims")) + "⟩")
     out.append("")
     # transform methods
     for pyname, arr, lname in XFORMS:
